@@ -71,6 +71,7 @@ def _cases_first_call(tier):
                 out.append({'spec': spec, 'kind': kind, 'extras': extras})
             if not spec.get('history'):
                 out.append({'spec': spec, 'kind': kind, 'extras': 'empty'})
+                out.append({'spec': spec, 'kind': kind, 'extras': 'long'})
     return out
 
 
@@ -92,7 +93,8 @@ def _run_case_first_call(case):
     default_kind = kind == truth.default_kind
     fp = f"C03/{truth.family}/{kind}"
     # 'empty': a dimension of length zero next to the grid (a time axis with no records yet)
-    extras = [('a', 2), ('z', 0)] if case['extras'] == 'empty' else EXTRA[:case['extras']]
+    # 'long': a thousand records (longer than any slab or buffer size one would pick)
+    extras = [('a', 2), ('z', 0)] if case['extras'] == 'empty' else [('t', 1000)] if case['extras'] == 'long' else EXTRA[:case['extras']]
     sizes = {**{d: s for d, s in zip(grid_dims, grid_shape)}, **dict(extras)}
     extra_names = tuple(n for n, _ in extras)
     if not default_kind:
